@@ -394,6 +394,38 @@ class Engine(EngineBase):
         if self._data_files(pp) != before_files:
             raise Mismatch(P, "C09:repair:changed-data-files",
                            f"{label}: repair() changed documents or data files")
+        # (3b) the session that repaired (or failed to) goes on to update the cache: what it read without
+        #      validation while repairing must not be laundered into the cache file
+        if damaged and (len(res["keys"]) % 2 == 0 or sc.get("only") is not None):
+            try:
+                proj.update_cache()
+                how = "cache-updated"
+            except JobsCorruptedError:
+                how = "refused"
+            except Exception as e:  # noqa: BLE001
+                raise Mismatch(P, "C09:update_cache:raised-other",
+                               f"{label}: update_cache() after repair() raised {type(e).__name__}: {str(e)[:160]}",
+                               f"C09:update_cache:raised-{type(e).__name__}")
+            fresh = signac.Project(pp)
+            for n in sorted(damaged):
+                for route in ("statepoint", "cached_statepoint"):
+                    try:
+                        job = fresh.open_job(id=n)
+                        v = job.statepoint() if route == "statepoint" else dict(job.cached_statepoint)
+                    except Exception:  # noqa: BLE001 - raising is an allowed outcome
+                        continue
+                    try:
+                        good = cid(v) == n
+                    except (TypeError, ValueError):
+                        good = False
+                    if not good:
+                        raise Mismatch(P, "C09:open:accepted-wrong-statepoint-after-repair-and-update_cache",
+                                       f"{label}: repair() (raised {rep}) and then update_cache() ({how}) in the same "
+                                       f"session; a fresh session's open_job(id={n[:8]}).{route} returned "
+                                       f"{str(v)[:100]} whose id is not {n[:8]}",
+                                       "C09:open:accepted-wrong-statepoint-after-repair-and-update_cache")
+            pr = res["stats"]["probes"]
+            pr["update_cache_after_repair_" + how] = pr.get("update_cache_after_repair_" + how, 0) + 1
         # (4) a cache update between the damage and the fresh session must not launder the damage:
         #     update_cache() either refuses (JobsCorruptedError) or leaves a cache from which
         #     open-by-id still never yields a state point whose hash differs from the id
